@@ -11,6 +11,7 @@ RULE = (
     "Requested order (snapshot when submit_orders returned) versus accepted record; p0 is get_market_price(0) "
     "read at the moment of the decision. Case = one accepted order; distinct = (market role, position of the "
     "request relative to the band, side, kind); non-trivial = everything except in-band orders on non-targets."
+    ' Since the seeded rounds: rules set up twice (refused first attempt, then corrected settings on the same object), whole-number prices written as Python int, explicit empty event lists.'
 )
 ASSUMPTIONS = [
     "tick rounding after the clip follows C19 (non-aggressive direction, less than one tick, 4-ulp slack)",
